@@ -1,13 +1,16 @@
 //! Per-property drivers.
 use crate::core::Driver;
 
+pub mod c04;
 pub mod c15;
+pub mod lefgen;
 pub mod toy;
 
-pub const ALL: &[&str] = &["C15", "TOY"];
+pub const ALL: &[&str] = &["C04", "C15", "TOY"];
 
 pub fn registry(id: &str) -> Box<dyn Driver> {
     match id {
+        "C04" => c04::driver(),
         "C15" => c15::driver(),
         "TOY" => toy::driver(),
         _ => panic!("MACHINERY: unknown property id {id}"),
